@@ -18,7 +18,7 @@ EXPL = ('(R-POLY/tables) the set-up code of the interleaved w-NAF multiplication
 def run(ctx):
     ctx.explanation = EXPL
     ctx.level = 'other'
-    ctx.assumptions = ['digit-indexed table lookups and the decomposition arithmetic are not decided']
+    ctx.assumptions = ['the recoding as a value, the digit loop and the GLV decomposition arithmetic are not decided; psi(P) = [x]P on G2 is assumed']
     for cfg, prog in ctx.programs().items():
         n = guards.rule_defout(ctx, cfg, prog, name_filter=lambda f: 'Fq12' not in f['qn'] and 'miller' not in f['qn'])
         ctx.floor('R-DEFOUT accumulation functions[%s]' % cfg, n, 4)
